@@ -63,7 +63,8 @@ type stackCase struct {
 	CancelK     int    `json:"cancel_k"`
 	// a transport that blocks: every Send towards StallPeer blocks until the run is over (a peer that stopped reading); deliveries
 	// then run in one goroutine per link, like the connection handlers of a real transport
-	StallPeer int `json:"stall_peer"`
+	StallPeer  int `json:"stall_peer"`
+	StallAfter int `json:"stall_after"` // the peer reads that many messages before it stops
 }
 
 type stackJob struct {
@@ -94,6 +95,8 @@ type stackRun struct {
 	release   chan struct{}          // closed at the end of the run: blocked Sends return
 	workers   map[[2]int]chan *tss.IncMessage
 	closed    bool
+	silentAll bool // after the protocol-point cancellation: nothing is delivered any more, nothing new is accepted
+	stallSeen int  // messages the stalling peer has read so far
 	direct  map[int]tss.KeyGenerator // mode "direct": the back ends wired without orchestrator, synchroniser and reliable broadcast
 }
 
@@ -108,8 +111,11 @@ func (r *stackRun) log(o obj) {
 
 func (r *stackRun) send(from int, msgType uint8, topic []byte, data []byte, to ...uint16) {
 	if r.c.StallPeer != 0 && from != r.c.StallPeer {
+		r.mu.Lock()
+		stalled := r.stallSeen >= r.c.StallAfter
+		r.mu.Unlock()
 		for _, d := range to {
-			if int(d) == r.c.StallPeer {
+			if stalled && int(d) == r.c.StallPeer {
 				<-r.release // the peer stopped reading: the transport blocks
 				return
 			}
@@ -117,6 +123,9 @@ func (r *stackRun) send(from int, msgType uint8, topic []byte, data []byte, to .
 	}
 	r.mu.Lock()
 	defer r.mu.Unlock()
+	if r.silentAll {
+		return
+	}
 	for _, d := range to {
 		if int(d) == from {
 			continue
@@ -215,11 +224,15 @@ func (r *stackRun) deliver(m *netMsg) {
 		r.parties[m.to].HandleMessage(m.m)
 		return
 	}
-	if m.to == r.c.StallPeer {
-		return
-	}
 	k := [2]int{m.from, m.to}
 	r.mu.Lock()
+	if m.to == r.c.StallPeer {
+		if r.stallSeen >= r.c.StallAfter {
+			r.mu.Unlock()
+			return
+		}
+		r.stallSeen++
+	}
 	if r.workers == nil {
 		r.workers = map[[2]int]chan *tss.IncMessage{}
 	}
@@ -252,6 +265,13 @@ func (r *stackRun) protocolPoint(node, kind int) {
 	r.evCount[[2]int{node, kind}]++
 	hit := r.evCount[[2]int{node, kind}] == c.CancelK
 	f := r.cancelAll
+	if hit {
+		// from now on everybody is silent: nothing that is in flight arrives, so nothing will wake up a waiting call again
+		r.silentAll = true
+		for k := range r.links {
+			r.links[k] = nil
+		}
+	}
 	r.mu.Unlock()
 	if hit && f != nil {
 		f()
